@@ -39,9 +39,12 @@ def tlc_case(text):
                         phaselits[n] = n[len("$phase="):]
                     if n.startswith("$assoc="):
                         assoclits[n] = n[len("$assoc="):]
+    # condition variables computed by the code (not the synthetic "?n:loop-entered" conditions): inside a loop body they
+    # may depend on the loop variable
+    loopflags = sorted({f for fl in flags.values() for f in fl if not f.startswith("?")}) or ["$none"]
     return {"subs": p["subs"], "allvec": sorted(allvec), "allrc": sorted(allrc), "locals": p["locals"],
             "flags": flags, "phaselits": phaselits or {"$none": "-"}, "assoclits": assoclits or {"$none": "-"},
-            "warnings": p["warnings"]}
+            "loopflags": loopflags, "warnings": p["warnings"]}
 
 
 def driver_grid(info, text, module="dagrtmod"):
@@ -172,7 +175,7 @@ def trace_cases(args):
     m = stepper.resolve_fresh(method)
     text, _info = fortran.generate(m)
     base = tlc_case(text)
-    keys = ("subs", "allvec", "allrc", "locals", "flags", "phaselits", "assoclits")
+    keys = ("subs", "allvec", "allrc", "locals", "flags", "phaselits", "assoclits", "loopflags")
     out = []
     for nruns, log, clean in marker_traces(m, seqs):
         c = {k: base[k] for k in keys}
@@ -355,7 +358,7 @@ def type_job(name):
         # no pointer members: the module as a whole fits the reference-count model as well (pointer members are
         # outside what harness/fextract.py parse_module understands)
         ref = tlc_case(text)
-        case["ref"] = {k: ref[k] for k in ("subs", "allvec", "allrc", "locals", "flags", "phaselits", "assoclits")}
+        case["ref"] = {k: ref[k] for k in ("subs", "allvec", "allrc", "locals", "flags", "phaselits", "assoclits", "loopflags")}
         w1 = w1 + ref["warnings"]
     drv = TYPE_DRIVER % {"use": (T["tname"] + ", ") if T["tname"] else "", "decl": T.get("decl") or "type(%s) :: y0" % T["tname"],
                          "init": T["init"], "fini": T["fini"]}
@@ -491,7 +494,7 @@ def run(chk):
     warn = [w for c in ok for w in c["warnings"]]
     if warn:
         raise tlc.MachineryError("extractor met text it does not understand: %s" % warn[:3])
-    tl = [{k: c[k] for k in ("subs", "allvec", "allrc", "locals", "flags", "phaselits", "assoclits")} for c in ok]
+    tl = [{k: c[k] for k in ("subs", "allvec", "allrc", "locals", "flags", "phaselits", "assoclits", "loopflags")} for c in ok]
     cfg = tlc.temp_cfg("CONSTANTS\n MaxRuns = %d\n MaxIters = 2\nINIT Init\nNEXT Next\nCHECK_DEADLOCK FALSE\nINVARIANT Safety\n"
                        "INVARIANT NoLeakAtShutdown\nCONSTRAINT Bound\n" % (2 if chk.quick else 3))
     out = tlc.judge_batch("RefCount", tl, cfg=cfg, chunk=8, workers=2, jobs=8, chk=chk, timeout=2400)
@@ -512,7 +515,7 @@ def run(chk):
     with multiprocessing.Pool(NCPU) as pool_:
         tcs = [c for lst in pool_.map(trace_cases, [(m, tseqs) for m in tsel], chunksize=1) for c in lst]
     tcs_clean = [c for c in tcs if c["clean"]]
-    tkeys = ("subs", "allvec", "allrc", "locals", "flags", "phaselits", "assoclits", "log", "nruns")
+    tkeys = ("subs", "allvec", "allrc", "locals", "flags", "phaselits", "assoclits", "loopflags", "log", "nruns")
     tout = tlc.judge_batch("TraceRefCount", [{k: c[k] for k in tkeys} for c in tcs_clean], chunk=6, workers=1, jobs=12,
                            tags=("ACC",), chk=chk, timeout=1800)
     accepted = {t[1] for t in tout["ACC"]}
@@ -596,7 +599,7 @@ def replay(chk, rep):
         return
     m = rep["case"]["method"]
     case = prepare(m)
-    tl = {k: case[k] for k in ("subs", "allvec", "allrc", "locals", "flags", "phaselits", "assoclits")}
+    tl = {k: case[k] for k in ("subs", "allvec", "allrc", "locals", "flags", "phaselits", "assoclits", "loopflags")}
     cfg = tlc.temp_cfg("CONSTANTS\n MaxRuns = 3\n MaxIters = 2\nINIT Init\nNEXT Next\nCHECK_DEADLOCK FALSE\nINVARIANT SafetyStrict\n"
                        "INVARIANT NoLeakAtShutdownStrict\nCONSTRAINT Bound\n")
     res = tlc.run_tlc("RefCount", cfg=cfg, env={"CASES": tlc.write_cases([tl])}, workers=2)
